@@ -3,7 +3,7 @@ package main
 // C15 - result equivalence under history: the calculated document must not depend on which documents
 // the process handled before it, nor on documents being handled at the same time.
 //
-//	vharness c15equiv <repo> <seed> <nrand> fwd|rev|par
+//	vharness c15equiv <repo> <seed> <nrand> fwd|rev|par|doc:<workload name>|dump:<fwd|rev|par>:<workload name>
 //
 // builds one fixed list of workloads (every example, a synthetic invoice per regime and per
 // regime+addon, EVERY ordered pair of addons on the pair's home regimes, seeded random pairs), runs
@@ -29,6 +29,8 @@ import (
 
 	"github.com/invopop/gobl"
 	"github.com/invopop/gobl/tax"
+
+	"verifharness/c15docs"
 )
 
 func c15EquivWorkloads(repo string, seed int64, nrand int) []*snapWorkload {
@@ -86,6 +88,62 @@ func c15EquivWorkloads(repo string, seed int64, nrand int) []*snapWorkload {
 					add(cc, []string{a1, a2})
 				}
 			}
+		}
+	}
+	// FULL documents (c15docs): the synthetic invoice above has no payment, delivery or ordering part, so the add-ons'
+	// normalizers of those parts never ran.  (1) every add-on alone on its home regimes x EVERY payment means key (the bill
+	// kinds that carry payment instructions in rotation) plus one delivery; (2) EVERY ordered pair of add-ons on the pair's
+	// home regimes, two payment means keys and kinds in rotation (so that over the pairs every key and kind occurs), plus
+	// one delivery per pair; (3) every regime x every add-on, kind and means key in rotation.
+	means := c15docs.MeansKeys()
+	fullSeen := map[string]bool{}
+	addFull := func(kind, cc string, addons []string, mk string) {
+		r := byCountry[cc]
+		if r == nil || fullSeen[c15docs.Name(kind, cc, addons, mk)] {
+			return
+		}
+		fullSeen[c15docs.Name(kind, cc, addons, mk)] = true
+		ws = append(ws, &snapWorkload{Name: c15docs.Name(kind, cc, addons, mk), Regime: cc, Addons: addons,
+			Doc: "full", data: c15docs.Full(kind, r, addons, mk)})
+	}
+	rot := int(seed % 1000)
+	if rot < 0 {
+		rot = -rot
+	}
+	for _, a := range addonKeys {
+		for _, cc := range home(a) {
+			for _, mk := range means {
+				addFull(c15docs.Kinds[rot%3], cc, []string{a}, mk)
+				rot++
+			}
+			addFull("delivery", cc, []string{a}, means[0])
+		}
+	}
+	for _, a1 := range addonKeys {
+		for _, a2 := range addonKeys {
+			if a1 == a2 {
+				continue
+			}
+			seen := map[string]bool{}
+			for i, cc := range append(home(a1), home(a2)...) {
+				if seen[cc] {
+					continue
+				}
+				seen[cc] = true
+				for k := 0; k < 2; k++ {
+					addFull(c15docs.Kinds[rot%3], cc, []string{a1, a2}, means[rot%len(means)])
+					rot++
+				}
+				if i == 0 {
+					addFull("delivery", cc, []string{a1, a2}, means[0])
+				}
+			}
+		}
+	}
+	for _, r := range regs {
+		for _, a := range addonKeys {
+			addFull(c15docs.Kinds[rot%4], r.Country.String(), []string{a}, means[rot%len(means)])
+			rot++
 		}
 	}
 	// rate keys a regime may still understand although it no longer lists them (legacy spellings that a migration
@@ -241,6 +299,9 @@ func c15EquivOne(w *snapWorkload) (res string) {
 	}
 	c15StripIDs(g)
 	b, _ = json.Marshal(g)
+	if c15DumpName != "" && w.Name == c15DumpName {
+		c15DumpOut = string(b)
+	}
 	h := sha256.Sum256(b)
 	out := hex.EncodeToString(h[:8])
 	if verr != nil {
@@ -249,6 +310,9 @@ func c15EquivOne(w *snapWorkload) (res string) {
 	}
 	return out
 }
+
+// set by the `dump:<name>:<mode>` form: the calculated document of one workload as it comes out in that order
+var c15DumpName, c15DumpOut string
 
 func c15ErrKey(err error) string {
 	if e, ok := err.(*gobl.Error); ok {
@@ -266,7 +330,23 @@ func c15equiv(args []string) int {
 	nrand, _ := strconv.Atoi(args[2])
 	ws := c15EquivWorkloads(args[0], seed, nrand)
 	res := make([]string, len(ws))
-	switch args[3] {
+	if strings.HasPrefix(args[3], "doc:") { // the document of one workload (for the replay record)
+		for _, w := range ws {
+			if w.Name == args[3][4:] {
+				os.Stdout.Write(append(w.data, '\n'))
+				return 0
+			}
+		}
+		return 1
+	}
+	mode := args[3]
+	if strings.HasPrefix(mode, "dump:") { // dump:<fwd|rev|par>:<workload name>
+		parts := strings.SplitN(mode, ":", 3)
+		if len(parts) == 3 {
+			mode, c15DumpName = parts[1], parts[2]
+		}
+	}
+	switch mode {
 	case "fwd":
 		for i, w := range ws {
 			res[i] = c15EquivOne(w)
@@ -292,6 +372,10 @@ func c15equiv(args []string) int {
 		}
 		close(ch)
 		wg.Wait()
+	}
+	if c15DumpName != "" {
+		fmt.Println(c15DumpOut)
+		return 0
 	}
 	for i, w := range ws {
 		fmt.Printf("%s\t%s\n", w.Name, res[i])
